@@ -40,6 +40,15 @@ def handle (line : String) : String :=
          "text=" ++ printExpr e ++ " | java=" ++ showJ (JavaSem.eval ρ e)
        | none => "no-context")
     | _, _, _ => "bad-op"
+  | ["ctx2", shape, op1, op2, ty, c1, c2, i1, l1] =>
+    match c1.toInt?, c2.toInt?, i1.toInt?, l1.toInt? with
+    | some c1, some c2, some i1, some l1 =>
+      (match ctxExpr2 shape op1 op2 ty c1 c2 with
+       | some e =>
+         let ρ : JavaSem.Env := ⟨fun _ => BitVec.ofInt 32 i1, fun _ => BitVec.ofInt 64 l1⟩
+         "text=" ++ printExpr e ++ " | java=" ++ showJ (JavaSem.eval ρ e)
+       | none => "no-context")
+    | _, _, _, _ => "bad-op"
   | _ => "bad-op"
 
 def main : IO Unit := runMain handle
